@@ -11,6 +11,18 @@ NOTE = ("Trusted base: the Go type checker (go/types), go/packages loading of /r
 
 # id -> (technique, level text, design ref)
 CLAIMS = {
+ "C01": ("panic-operand classification over all panic sites (go/ssa) + pinned error-class table + deferred-Recover dominance + recover() arm summaries vs reviewed table",
+         "Structural necessary conditions: every panic throws a classified value, every error type keeps its UserError/InternalError marker, runtime entry points defer Recover before any other call, and every recover() site absorbs/re-panics exactly the reviewed dynamic types.",
+         "DESIGN.md §4 C01"),
+ "C11": ("panic-kind signatures (go/ssa, interprocedural depth 2) + zero-divisor guard dominance (AST) + sibling unification across widths + own-constant rule",
+         "Structural necessary conditions: each arithmetic method raises exactly the error kinds the property states, every division is guarded against zero, sibling widths implement the same template modulo the width parameters, and bounds used are the type's own.",
+         "DESIGN.md §4 C11"),
+ "C12": ("panic-kind signatures + zero-divisor guard dominance + sibling unification + own-constant rule",
+         "Structural necessary conditions: Word arithmetic raises no overflow/underflow kind, Div/Mod raise exactly DivisionByZero behind a dominating zero test, sibling widths agree modulo width parameters, reductions use the type's own modulus.",
+         "DESIGN.md §4 C12"),
+ "C28": ("wrapper-shape check of the 45 ExternalInterface methods + SSA error-flow (def-use to sinks, swallow-on-non-nil-edge) over all host-backed calls + recover() absorb table",
+         "Structural necessary conditions: every host callback is wrapped (WrapPanic + WrappedExternalError), every host error value reaches a sink on its non-nil edge, and only the documented recover site absorbs ExternalError; undocumented swallow sites of the pinned tree are known findings.",
+         "DESIGN.md §4 C28"),
  "C24": ("who-may-call + gated backward call-graph closure + dominance of commit by error tests (go/ssa)",
          "Structural necessary conditions: only the commit routine reaches ledger writes, only executors (after a nil error test) reach the commit routine, scripts reach none; mid-execution temporary commits are listed as known findings.",
          "DESIGN.md §4 C24"),
